@@ -413,7 +413,21 @@ def inv_small(M):
             raise np.linalg.LinAlgError("Singular matrix")
         r = det.reciprocal()
         return sarr([[d * r, -b * r], [-c * r, a * r]])
-    raise HarnessError("inv_small: d > 2")
+    if n == 3:
+        A = [[SymReal.lift(M[i, j]) for j in range(3)] for i in range(3)]
+        cof = [[None] * 3 for _ in range(3)]
+        for i in range(3):
+            for j in range(3):
+                r_ = [k for k in range(3) if k != i]
+                c_ = [k for k in range(3) if k != j]
+                minor = A[r_[0]][c_[0]] * A[r_[1]][c_[1]] - A[r_[0]][c_[1]] * A[r_[1]][c_[0]]
+                cof[i][j] = minor if (i + j) % 2 == 0 else -minor
+        det = A[0][0] * cof[0][0] + A[0][1] * cof[0][1] + A[0][2] * cof[0][2]
+        if bool(det == 0):
+            raise np.linalg.LinAlgError("Singular matrix")
+        r = det.reciprocal()
+        return sarr([[cof[j][i] * r for j in range(3)] for i in range(3)])
+    raise HarnessError("inv_small: d > 3")
 
 
 def det_small(M):
@@ -423,7 +437,11 @@ def det_small(M):
         return SymReal.lift(M[0, 0])
     if n == 2:
         return SymReal.lift(M[0, 0]) * M[1, 1] - SymReal.lift(M[0, 1]) * M[1, 0]
-    raise HarnessError("det_small: d > 2")
+    if n == 3:
+        A = [[SymReal.lift(M[i, j]) for j in range(3)] for i in range(3)]
+        return (A[0][0] * (A[1][1] * A[2][2] - A[1][2] * A[2][1]) - A[0][1] * (A[1][0] * A[2][2] - A[1][2] * A[2][0])
+                + A[0][2] * (A[1][0] * A[2][1] - A[1][1] * A[2][0]))
+    raise HarnessError("det_small: d > 3")
 
 
 def solve_small(A, B):
